@@ -13,6 +13,10 @@ LARGE_SETS = [(6144,), (8192,), (6144, 8192), (2048, 6144), (2048, 8192), (1024,
 SHA1, SHA256 = 'diffie-hellman-group-exchange-sha1', 'diffie-hellman-group-exchange-sha256'
 OFFERS = {'sha1': [SHA1], 'sha256': [SHA256], 'both': [SHA256, SHA1]}
 BANNERS = {'openssh': b'SSH-2.0-OpenSSH_8.9p1 Ubuntu-3', 'other': b'SSH-2.0-dropbear_2022.83'}
+# further spellings of an OpenSSH identification: every stage of the tool must agree on whether the peer is OpenSSH
+ODD_BANNERS = {'openssh-windows': b'SSH-2.0-OpenSSH_for_Windows_8.1', 'openssh-bare': b'SSH-2.0-OpenSSH', 'openssh-comment-only': b'SSH-2.0-FrobSSH_1.0 OpenSSH compatible'}
+ALL_BANNERS = dict(BANNERS, **ODD_BANNERS)
+BUG_NOTE = 'A bug in OpenSSH causes it to fall back to a 2048-bit modulus'
 FALLBACK_NOTE = "OpenSSH's GEX fallback mechanism was triggered"
 
 
@@ -27,9 +31,9 @@ def make_server(sub, style, offer, banner):
     if sub and sub[0] == 'split':     # the two group-exchange algorithms are served from different moduli files
         gex = {SHA1: P.GexPolicy(list(sub[1]), style), SHA256: P.GexPolicy(list(sub[2]), style)}
         return P.Server(kex=OFFERS[offer] + ['sntrup761x25519-sha512@openssh.com'], key=['ssh-ed25519'], host_keys=P.standard_host_keys(['ssh-ed25519']),
-                        gex=gex, banner=BANNERS[banner])
+                        gex=gex, banner=ALL_BANNERS[banner])
     return P.Server(kex=OFFERS[offer] + ['sntrup761x25519-sha512@openssh.com'], key=['ssh-ed25519'], host_keys=P.standard_host_keys(['ssh-ed25519']),
-                    gex=P.GexPolicy(list(sub), style), banner=BANNERS[banner])
+                    gex=P.GexPolicy(list(sub), style), banner=ALL_BANNERS[banner])
 
 
 def expected_from_log(srv, alg, banner):
@@ -49,7 +53,7 @@ def expected_from_log(srv, alg, banner):
     if not handed and follow is None:
         return None, False
     smallest = min(handed) if handed else None
-    if banner == 'openssh' and smallest == 2048 and follow is not None:
+    if banner in ('openssh', 'openssh-windows', 'openssh-bare') and smallest == 2048 and follow is not None:
         return (follow if follow else 2048), (follow not in (None, 2048))
     return smallest, False
 
@@ -87,6 +91,11 @@ def judge(res, srv, offer, banner, st, detail, fam='gex'):
         has_fb = any(FALLBACK_NOTE in t for _lv, t in notes)
         if has_fb != fallback:
             st.violation('%s:fallback-note' % fam, dict(detail, alg=alg, has_note=has_fb, expected=fallback))
+        # an OpenSSH server left at 2048 bits after the follow-up probe: the report explains that this is OpenSSH's doing
+        if alg == SHA256 and fam == 'gex':
+            want_bug = banner in ('openssh', 'openssh-windows', 'openssh-bare') and want == 2048
+            if any(BUG_NOTE in t for _lv, t in notes) != want_bug:
+                st.violation('%s:openssh-2048-note' % fam, dict(detail, alg=alg, expected=want_bug, notes=notes))
 
 
 def work(chunk, st):
@@ -201,6 +210,7 @@ def run(tier, seed):
     sizes = QUICK_SIZES if tier == 'quick' else ALL_SIZES
     tasks = [(sub, style, offer, banner) for sub in subsets(sizes) for style in (P.STRICT, P.ROUNDUP, P.OPENSSH)
              for offer in OFFERS for banner in BANNERS]
+    tasks += [(sub, style, offer, banner) for sub in subsets([2048, 3072, 4096]) for style in (P.STRICT, P.ROUNDUP, P.OPENSSH) for offer in OFFERS for banner in ODD_BANNERS]
     split = [(1024,), (2048,), (3072,), (4096,), (2048, 4096), (1536, 3072)]
     tasks += [(('split', a, b), style, 'both', banner) for a in split for b in split if a != b for style in (P.STRICT, P.ROUNDUP, P.OPENSSH) for banner in BANNERS]
     if tier == 'quick':
